@@ -198,6 +198,32 @@ Qed.
 Print Assumptions routed_end_to_end.
 
 (* ------------------------------------------------------------------------------------------------------------
+   media type selection (the profile [wrap] is run with in the correspondence comes from these functions): a
+   destination that accepts any DIDComm v2 media type gets JWE packing and v2 forwards, wherever the type stands in
+   its list; the selected type is one the destination lists, or the sender's default *)
+Theorem v2_accept_wins : forall accept dflt,
+  (exists m, In m accept /\ tier_of m = TTop) -> family (media_type accept dflt) = Some PV2.
+Proof.
+  intros accept dflt H. unfold media_type. destruct (pick_top accept None H) as [m' [-> Ht]].
+  destruct m'; try discriminate; reflexivity.
+Qed.
+Print Assumptions v2_accept_wins.
+
+Theorem selected_is_listed_or_default : forall accept dflt,
+  media_type accept dflt = dflt \/ In (media_type accept dflt) accept.
+Proof.
+  intros accept dflt. unfold media_type. destruct (pick None accept) as [m|] eqn:E; [|left; reflexivity].
+  destruct (pick_in _ _ _ E) as [H|H]; [discriminate|right; exact H].
+Qed.
+Print Assumptions selected_is_listed_or_default.
+
+Example media_type_nonvacuous :
+  media_type [M_Other; M_RFC19; M_AIP2RFC587; M_Indy; M_V2EncV1Plain] M_DIDCommV2 = M_V2EncV1Plain /\
+  media_type [M_Indy; M_RFC19] M_DIDCommV2 = M_Indy /\ media_type [M_Other] M_AIP1 = M_AIP1 /\
+  media_type [M_AIP2RFC587; M_V2Plain; M_DIDCommV2] M_Indy = M_V2Plain.
+Proof. repeat split. Qed.
+
+(* ------------------------------------------------------------------------------------------------------------
    non-vacuity *)
 Example peel_all_nonvacuous :
   (* authcrypt JWE for three recipient keys (two parties), four routing keys of mixed types, v2 forwards *)
